@@ -367,17 +367,28 @@ def computeFirst (b : Box) : Order → Bool
   | .first => true
   | .last => false
 
-/-- `np.repeat(bound, n, axis = 0 | -1)` in C order: every slab along the axis is repeated `n` times
-*consecutively* -/
-def repeatAxis (n : Nat) (first : Bool) (shape : List Nat) (d : List Int) : List Int :=
+/-- `np.concatenate([bound] * n, axis = 0 | -1)` in C order: the bound array tiled `n` times along the stacking
+axis, i.e. laid out exactly like `n` stacked frames -/
+def tileAxis (n : Nat) (first : Bool) (shape : List Nat) (d : List Int) : List Int :=
+  (concatFrames first shape (List.replicate n ⟨shape, d⟩)).data
+
+def stackedBox (n : Nat) (first : Bool) (b : Box) : Box :=
+  { shape := stackedShape n first b.shape,
+    low := tileAxis n first b.shape b.low,
+    high := tileAxis n first b.shape b.high,
+    dtype := b.dtype }
+
+/-- the formula used before fix e25cae6 (finding K-C17-a): `np.repeat(bound, n, axis)` repeats every slab along
+the axis `n` times *consecutively*. Kept only for the lemma that documents why it was wrong. -/
+def repeatAxisOld (n : Nat) (first : Bool) (shape : List Nat) (d : List Int) : List Int :=
   if first then
     (rows (prod shape.tail) d).flatMap fun slab => (List.replicate n slab).flatten
   else d.flatMap fun x => List.replicate n x
 
-def stackedBox (n : Nat) (first : Bool) (b : Box) : Box :=
+def stackedBoxOld (n : Nat) (first : Bool) (b : Box) : Box :=
   { shape := stackedShape n first b.shape,
-    low := repeatAxis n first b.shape b.low,
-    high := repeatAxis n first b.shape b.high,
+    low := repeatAxisOld n first b.shape b.low,
+    high := repeatAxisOld n first b.shape b.high,
     dtype := b.dtype }
 
 /-- `transpose_space` -/
